@@ -69,6 +69,24 @@ class C17(Prop):
                 w = chk(name, n, got, want)
                 if w:
                     return w, n_eval
+        # arguments beyond 2**53, where any detour through floating point stops being exact
+        big = [2**53 + 1, 2**61 - 1, 2 * (2**61 - 1), 3**40, 10**20 + 39, (2**53 + 1) ** 2, 2**64, 2**64 + 13, 6 * (2**61 - 1), 10**18 + 9]
+        for n in big:
+            n_eval += 1
+            h = el.vy_hex(n, ctx)
+            b = simp(el.vy_bin(n, ctx))
+            checks = [("square/root", int(el.square_root(el.square(n, ctx), ctx)), n), ("double/halve", int(el.halve(el.multiply(n, 2, ctx), ctx)), n),
+                      ("hex", h, "%x" % n), ("from hex", int(el.vy_hex(h, ctx)), n), ("binary", b, [int(c) for c in bin(n)[2:]]), ("from binary", int(el.vy_int(b, 2)), n),
+                      ("gcd", int(el.vy_gcd(n, n + 2, ctx)), math.gcd(n, n + 2)), ("lcm", int(el.lowest_common_multiple(n, 6, ctx)), math.lcm(n, 6)),
+                      ("next prime", bool(int(el.next_prime(n, ctx)) > n), True)]
+            r = el.square_root(n * n + 1, ctx)
+            checks.append(("root of a non-square stays exact", bool(r * r == n * n + 1 and not getattr(r, "is_Integer", isinstance(r, int))), True))
+            pf = simp(el.prime_factors(n, ctx))
+            checks.append(("prime factorisation with multiplicity", bool(math.prod(pf) == n and pf == sorted(pf) and all(int(el.is_prime(p, ctx)) for p in pf)), True))
+            for name, got, want in checks:
+                w = chk(name + " (large argument)", n, got, want)
+                if w:
+                    return w, n_eval
         # explicit ranges: the same under every setting of the implicit-range flags (M, m, Ṁ move ctx.range_start / range_end)
         for rs, re_ in ((1, 1), (0, 1), (1, 0), (0, 0)):
             c2 = Context()
@@ -100,7 +118,7 @@ class C17(Prop):
 
     def bounded(self, W, tier, seed):
         w, n = self.defs_search(tier, seed)
-        return [dict(name="C17/bounded-definitions", what="each builtin on every n in range and all pairs for the dyads, against naive reference definitions; inverse pairs composed", bound="n < 600, pairs < 60 (quick); n <= 20000, pairs < 300 (thorough); plus Carmichael numbers, powers of two, a square of a prime, a semiprime", evaluations=n, label="bounded (this is also the conformance sample of the assumed library contracts)", failures=[w] if w else [])]
+        return [dict(name="C17/bounded-definitions", what="each builtin on every n in range and all pairs for the dyads, against naive reference definitions; inverse pairs composed", bound="n < 600, pairs < 60 (quick); n <= 20000, pairs < 300 (thorough); plus Carmichael numbers, powers of two, a square of a prime, a semiprime, and ten arguments beyond 2**53 (inverse pairs, gcd / lcm, factorisation, exact roots)", evaluations=n, label="bounded (this is also the conformance sample of the assumed library contracts)", failures=[w] if w else [])]
 
     def replay(self, W, report, ob):
         return self.defs_search("quick", 0)[0]
